@@ -185,3 +185,58 @@ Proof.
   apply dep1. eexists _, _, 0, _. split; [reflexivity|]. split; [vm_compute; reflexivity|].
   split; [reflexivity|]. left. reflexivity.
 Qed.
+
+(* ---- extended semantics (Model/FactoryX.v): post-processors that short-circuit instantiation, Init methods that
+   call back into the factory.  `small_points`: no component has more than 100 injection points (the pseudo-fields
+   in which an Init method keeps what it looked up start at index 100). ------------------------------------- *)
+From Coq Require Import Lia.
+From IocVerif Require Import Model.FactoryX Proofs.FactoryXLife.
+
+(* every component still has at most one lifecycle block: the full one (points set, before-callbacks, AfterPropertiesSet,
+   Init, after-callbacks; the lookups of Init and everything they create lie INSIDE it and are not part of it), or,
+   only for a component some post-processor is listed as short-circuiting, the after-callbacks alone *)
+Theorem c05_lifecycle_extended : forall s x o st,
+  small_points s -> run_xt repaired s x = (o, Ok st) ->
+  forall n c, get_comp (s_pop s) n = Some c ->
+    match alookup n (L1 (reg st)) with
+    | None => sub n (log st) = []
+    | Some _ => (exists us, sub n (log st) = block n c us (snapshot st n c))
+                \/ ((exists p, In (p, n) (x_short x)) /\ exists us, sub n (log st) = rev (map (fun p => EvAfter p n) us))
+    end.
+Proof. intros s x o st Hs H. exact (run_xt_life repaired s x o st eq_refl Hs H). Qed.
+
+Theorem c05_at_most_once_extended : forall s x o st n c,
+  small_points s -> run_xt repaired s x = (o, Ok st) -> get_comp (s_pop s) n = Some c -> count_init n (log st) <= 1.
+Proof. intros s x o st n c Hs H. exact (run_xt_init_at_most_once repaired s x o st n c eq_refl Hs H). Qed.
+
+Theorem c05_exactly_once_extended : forall s x o st n c v,
+  small_points s -> run_xt repaired s x = (o, Ok st) ->
+  get_comp (s_pop s) n = Some c -> alookup n (L1 (reg st)) = Some v ->
+  (forall p, ~ In (p, n) (x_short x)) -> c_init c <> None ->
+  count_init n (log st) = 1.
+Proof. intros s x o st n c v Hs H. exact (run_xt_init_exactly_once repaired s x o st n c v eq_refl Hs H). Qed.
+
+(* non-vacuity: component 2's Init looks the lazy component 3 up, which is wired with 2; processor 4 is listed as
+   short-circuiting 5.  2's block is [after; Init; before] with 3's whole block inside it; 5 has the after-callback only *)
+Definition ex_scn5x : scenario :=
+  mkScn [ mkComp 100 [] false None false true [] [] [] None None None false (Some (Ord 2, PBuiltin BWire));
+          mkComp 101 [] false None false true [] [] [] None None None false (Some (Ord 4, PBuiltin BFurther));
+          mkComp 0 [] false None false false [] [] [] None (Some false) None false None;
+          mkComp 1 [] false None false true [] [mkPoint false (TPtr 0) SByType None true] [] None (Some false) None false None;
+          mkComp 7 [] false None false false [] [] [] None None None false (Some (Unord, PUser [] []));
+          mkComp 2 [] false None false false [] [] [] None (Some false) None false None ]
+        [] false None [].
+
+Example c05_example_extended :
+  small_points ex_scn5x /\
+  match snd (run_xt repaired ex_scn5x (mkX [(4, 5)] [(2, [3])])) with
+  | Ok st => log st = [EvAfter 4 5; EvAfter 4 2; EvAfter 4 3; EvInit 3; EvBefore 4 3 [true]; EvEarly 4 2; EvInit 2; EvBefore 4 2 []]
+             /\ sub 2 (log st) = [EvAfter 4 2; EvInit 2; EvBefore 4 2 []]
+             /\ sub 5 (log st) = [EvAfter 4 5] /\ count_init 5 (log st) = 0 /\ count_init 2 (log st) = 1
+  | Fail _ _ => False
+  end.
+Proof.
+  split.
+  - intros n c H. do 6 (destruct n as [|n]; [cbn in H; inversion H; subst; cbn; lia|]). destruct n; discriminate.
+  - vm_compute. repeat split.
+Qed.
